@@ -62,14 +62,21 @@ def MsgValid (W : Votes) (t : Table) (m : Msg) : Prop :=
 
 /-! ### tallies -/
 
+/-- what a stored vote of `x` for `c` in the `(r, ph)` tally stands for: the vote exists and, for PREPARE,
+it was validly justified -/
+def VoteEv (W : Votes) (t : Table) (r : Nat) (ph : Phase) (x : Pid) (c : Chain) : Prop :=
+  W x r ph c ∧ (ph = .prepare → (r = 0 ∨ JL W t r c))
+
 /-- invariant of the PREPARE / COMMIT tally of round `r` -/
 structure TallyOK (W : Votes) (t : Table) (r : Nat) (ph : Phase) (q : Tally) : Prop where
-  wf : TallyWF (fun x c => W x r ph c) t q
+  wf : TallyWF (VoteEv W t r ph) t q
   justs : ∀ e ∈ q.justs,
     (ph = .prepare → ConvJust W t r e.1 e.2) ∧ (ph = .commit → e.1 ≠ [] ∧ CommitJust W t r e.1 e.2)
+  /-- every non-bottom value with a vote also has a stored justification (COMMIT tallies) -/
+  cover : ph = .commit → ∀ sup ∈ q.support, sup.chain ≠ [] → ∃ e ∈ q.justs, e.1 = sup.chain
 
 theorem TallyOK_empty (W : Votes) (t : Table) (r : Nat) (ph : Phase) : TallyOK W t r ph {} :=
-  ⟨TallyWF_empty _ t, by simp⟩
+  ⟨TallyWF_empty _ t, by simp, by simp⟩
 
 theorem receive_justs (t : Table) (q q' : Tally) (sender : Pid) (c : Chain) (h : q.receive t sender c = some q') :
     q'.justs = q.justs := by
@@ -82,30 +89,124 @@ theorem receive_justs (t : Table) (q q' : Tally) (sender : Pid) (c : Chain) (h :
     · cases h
     · cases h; rfl
 
-theorem TallyOK.receive {W : Votes} {t : Table} {r : Nat} {ph : Phase} {q q' : Tally} (h : TallyOK W t r ph q)
-    (sender : Pid) (c : Chain) (hpos : 0 < t.power sender) (hv : W sender r ph c)
-    (hr : q.receive t sender c = some q') : TallyOK W t r ph q' :=
-  ⟨receive_wf t q q' sender c h.wf hpos hv hr, by rw [receive_justs t q q' sender c hr]; exact h.justs⟩
+theorem TallyWF.justs_irrelevant {V : Pid → Chain → Prop} {t : Table} {q : Tally} (h : TallyWF V t q) (js : List (Chain × Just)) :
+    TallyWF V t { q with justs := js } :=
+  ⟨h.nodup, h.sub, h.pos, h.voted, h.sendersNodup, h.sendersPow, h.supPow, h.covered, h.chains⟩
 
-theorem TallyOK.receiveJust {W : Votes} {t : Table} {r : Nat} {ph : Phase} {q : Tally} (h : TallyOK W t r ph q)
-    (c : Chain) (j : Just)
-    (hj : (ph = .prepare → ConvJust W t r c j) ∧ (ph = .commit → c ≠ [] ∧ CommitJust W t r c j)) :
-    TallyOK W t r ph (q.receiveJust c j) := by
+theorem receive_support (t : Table) (q q' : Tally) (sender : Pid) (c : Chain) (h : q.receive t sender c = some q')
+    (sup : Support) (hs : sup ∈ q'.support) : sup ∈ q.support ∨ sup.chain = c := by
+  unfold Tally.receive at h
+  split at h
+  · cases h; exact Or.inl hs
+  · unfold Tally.receiveInner at h
+    dsimp only at h
+    split at h
+    · cases h
+    · cases h
+      rcases upsertSupport_mem _ _ _ hs with rfl | hs
+      · exact Or.inr rfl
+      · exact Or.inl hs
+
+theorem receiveJust_justs (q : Tally) (c : Chain) (j : Just) :
+    (∀ e ∈ (q.receiveJust c j).justs, e ∈ q.justs ∨ e = (c, j)) ∧ (∀ e ∈ q.justs, e ∈ (q.receiveJust c j).justs) ∧
+    (∃ e ∈ (q.receiveJust c j).justs, e.1 = c) ∧ (q.receiveJust c j).support = q.support ∧
+    (q.receiveJust c j).senders = q.senders ∧ (q.receiveJust c j).sendersPower = q.sendersPower := by
   unfold Tally.receiveJust
   split
-  · exact h
-  · refine ⟨⟨h.wf.nodup, h.wf.sub, h.wf.pos, h.wf.voted⟩, ?_⟩
-    intro e he
-    simp only [List.mem_append, List.mem_singleton] at he
-    rcases he with he | rfl
-    · exact h.justs e he
-    · exact hj
+  · rename_i h
+    simp only [List.any_eq_true, beq_iff_eq] at h
+    obtain ⟨e, he, hec⟩ := h
+    exact ⟨fun e he => Or.inl he, fun e he => he, ⟨e, he, hec⟩, rfl, rfl, rfl⟩
+  · refine ⟨?_, ?_, ⟨(c, j), by simp, rfl⟩, rfl, rfl, rfl⟩
+    · intro e he
+      simp only [List.mem_append, List.mem_singleton] at he
+      exact he
+    · intro e he; simp [he]
+
+/-- a PREPARE vote (with its justification, if any) enters the PREPARE tally of its round -/
+theorem TallyOK.recvPrepare {W : Votes} {t : Table} {r : Nat} {q q' : Tally} (h : TallyOK W t r .prepare q)
+    (m : Msg) (hpos : 0 < t.power m.sender) (hv : VoteEv W t r .prepare m.sender m.value)
+    (hj : ∀ j, m.just = some j → ConvJust W t r m.value j)
+    (hr : q.receive t m.sender m.value = some q') : TallyOK W t r .prepare (storePrepareJust q' m) := by
+  have hwf' := receive_wf t q q' m.sender m.value h.wf hpos hv hr
+  have hjs := receive_justs t q q' m.sender m.value hr
+  unfold storePrepareJust
+  split
+  · rename_i j hmj
+    obtain ⟨h1, _, _, h4, h5, h6⟩ := receiveJust_justs q' m.value j
+    refine ⟨?_, ?_, fun hc => Phase.noConfusion hc⟩
+    · have := hwf'
+      exact ⟨by rw [h4]; exact this.nodup, by rw [h4, h5]; exact this.sub, by rw [h5]; exact this.pos,
+        by rw [h4]; exact this.voted, by rw [h5]; exact this.sendersNodup, by rw [h5, h6]; exact this.sendersPow,
+        by rw [h4]; exact this.supPow, by rw [h4, h5]; exact this.covered, by rw [h4]; exact this.chains⟩
+    · intro e he
+      rcases h1 e he with he | rfl
+      · rw [hjs] at he; exact h.justs e he
+      · exact ⟨fun _ => hj j hmj, fun hc => Phase.noConfusion hc⟩
+  · exact ⟨hwf', by rw [hjs]; exact h.justs, fun hc => Phase.noConfusion hc⟩
+
+/-- a COMMIT vote (with its justification when not for bottom) enters the COMMIT tally of its round -/
+theorem TallyOK.recvCommit {W : Votes} {t : Table} {r : Nat} {q q' : Tally} (h : TallyOK W t r .commit q)
+    (m : Msg) (hpos : 0 < t.power m.sender) (hv : VoteEv W t r .commit m.sender m.value)
+    (hj : m.value ≠ [] → ∃ j, m.just = some j ∧ CommitJust W t r m.value j)
+    (hr : q.receive t m.sender m.value = some q') : TallyOK W t r .commit (storeCommitJust q' m) := by
+  have hwf' := receive_wf t q q' m.sender m.value h.wf hpos hv hr
+  have hjs := receive_justs t q q' m.sender m.value hr
+  have hsupp := receive_support t q q' m.sender m.value hr
+  unfold storeCommitJust
+  split
+  · rename_i j hmj
+    split
+    · -- bottom: nothing stored
+      rename_i hbot
+      have hb : m.value = [] := by simpa using hbot
+      refine ⟨hwf', by rw [hjs]; exact h.justs, ?_⟩
+      intro _ sup hsup hne
+      rcases hsupp sup hsup with hs | hs
+      · obtain ⟨e, he, hec⟩ := h.cover rfl sup hs hne
+        exact ⟨e, by rw [hjs]; exact he, hec⟩
+      · exact absurd (hs.trans hb) hne
+    · rename_i hbot
+      have hne : m.value ≠ [] := by simpa using hbot
+      obtain ⟨j', hj', hcj⟩ := hj hne
+      have hjj : j' = j := by rw [hmj] at hj'; exact (Option.some.inj hj').symm
+      subst hjj
+      obtain ⟨h1, h2, h3, h4, h5, h6⟩ := receiveJust_justs q' m.value j'
+      refine ⟨?_, ?_, ?_⟩
+      · have := hwf'
+        exact ⟨by rw [h4]; exact this.nodup, by rw [h4, h5]; exact this.sub, by rw [h5]; exact this.pos,
+          by rw [h4]; exact this.voted, by rw [h5]; exact this.sendersNodup, by rw [h5, h6]; exact this.sendersPow,
+          by rw [h4]; exact this.supPow, by rw [h4, h5]; exact this.covered, by rw [h4]; exact this.chains⟩
+      · intro e he
+        rcases h1 e he with he | rfl
+        · rw [hjs] at he; exact h.justs e he
+        · exact ⟨fun hc => Phase.noConfusion hc, fun _ => ⟨hne, hcj⟩⟩
+      · intro _ sup hsup hne'
+        rw [h4] at hsup
+        rcases hsupp sup hsup with hs | hs
+        · obtain ⟨e, he, hec⟩ := h.cover rfl sup hs hne'
+          exact ⟨e, h2 e (by rw [hjs]; exact he), hec⟩
+        · obtain ⟨e, he, hec⟩ := h3
+          exact ⟨e, he, hec.trans hs.symm⟩
+  · -- no justification: by validity the value is bottom
+    rename_i hmj
+    have hb : m.value = [] := by
+      by_cases hne : m.value = []
+      · exact hne
+      · obtain ⟨j, hj', _⟩ := hj hne
+        rw [hmj] at hj'; cases hj'
+    refine ⟨hwf', by rw [hjs]; exact h.justs, ?_⟩
+    intro _ sup hsup hne
+    rcases hsupp sup hsup with hs | hs
+    · obtain ⟨e, he, hec⟩ := h.cover rfl sup hs hne
+      exact ⟨e, by rw [hjs]; exact he, hec⟩
+    · exact absurd (hs.trans hb) hne
 
 /-- a quorum found in a well-formed tally is `QL`-evidence -/
 theorem TallyOK.found_ql {W : Votes} {t : Table} {r : Nat} {ph : Phase} {q : Tally} (h : TallyOK W t r ph q)
     (c : Chain) (sg : List Nat) (hf : q.findStrongQuorumFor t c = .found sg) : QL W t r ph c := by
   obtain ⟨h1, h2, h3, h4⟩ := findStrongQuorumFor_spec t q c sg h.wf hf
-  exact ⟨sg, h1, h2, h3, h4⟩
+  exact ⟨sg, h1, h2, h3, fun i hi => by obtain ⟨x, hx, hv⟩ := h4 i hi; exact ⟨x, hx, hv.1⟩⟩
 
 /-- stored justifications retrieved by `getJustOf` -/
 theorem TallyOK.getJustOf_mem {q : Tally} {ph' : Phase} {c : Chain} {j : Just} (h : q.getJustOf ph' c = some j) :
